@@ -206,6 +206,9 @@ func PathsTo(fn *ssa.Function, target *ssa.BasicBlock, max int) ([]Path, bool) {
 func ReturnBlocks(fn *ssa.Function) []*ssa.BasicBlock {
 	var out []*ssa.BasicBlock
 	for _, b := range fn.Blocks {
+		if b == fn.Recover {
+			continue // runs only after a recovered panic
+		}
 		if _, ok := lastInstr(b).(*ssa.Return); ok {
 			out = append(out, b)
 		}
@@ -291,6 +294,33 @@ func WithAnon(fn *ssa.Function) []*ssa.Function {
 	out := []*ssa.Function{fn}
 	for _, a := range fn.AnonFuncs {
 		out = append(out, WithAnon(a)...)
+	}
+	return out
+}
+
+// ReturnValues resolves the operands of a Return: in functions with defers
+// go/ssa spills results to local slots ("*t0 = v; rundefers; t = *t0; return
+// t"); the value stored last in the return's own block is reported.
+func ReturnValues(r *ssa.Return) []ssa.Value {
+	out := make([]ssa.Value, len(r.Results))
+	for i, v := range r.Results {
+		out[i] = v
+		u, ok := v.(*ssa.UnOp)
+		if !ok {
+			continue
+		}
+		a, ok := u.X.(*ssa.Alloc)
+		if !ok {
+			continue
+		}
+		for _, in := range r.Block().Instrs {
+			if in == ssa.Instruction(u) {
+				break
+			}
+			if s, ok := in.(*ssa.Store); ok && s.Addr == ssa.Value(a) {
+				out[i] = s.Val
+			}
+		}
 	}
 	return out
 }
